@@ -105,7 +105,22 @@ def run(prop, tier, seed):
                 g = corpus.random_assignment(rnd, ver, p_opt=0.5)
                 g.update({"C": "N", "I": "N", "A": "N"})
                 strings.append((ver, corpus.spell(ver, -1, g)))
-        items = [{"op": "construct", "ver": ver, "s": esc(s), "json": True} for ver, s in dict.fromkeys(strings)]
+        # every third vector is followed by a twin in another spelling (other field order, optional metrics spelled out as Not
+        # Defined): both are built in the same interpreter process, so output that leaks from one object to an equal one shows
+        uniq = list(dict.fromkeys(strings))
+        withtwins = []
+        for k, (ver, s) in enumerate(uniq):
+            withtwins.append((ver, s))
+            if k % 3 == 0:
+                pre = corpus.prefix(ver, 0)[:0] if ver == "2" else s.split("/", 1)[0] + "/"
+                fields = (s if ver == "2" else s.split("/", 1)[1]).split("/")
+                rnd.shuffle(fields)
+                present = set(f.split(":")[0] for f in fields)
+                for m in corpus.ORDER[ver]:
+                    if m not in present and m not in corpus.MAND[ver] and rnd.random() < 0.3:
+                        fields.insert(rnd.randrange(len(fields) + 1), m + ":" + corpus.ND[ver])
+                withtwins.append((ver, pre + "/".join(fields)))
+        items = [{"op": "construct", "ver": ver, "s": esc(s), "json": True} for ver, s in withtwins]
         ev = record_events(items, work)
         for e in ev:
             if e["out"]["cls"] != "ok":
